@@ -5,12 +5,13 @@ the other half of "never raise an alarm on code where the property holds"."""
 import os, subprocess, tempfile
 SW = "src/sliding_windows/"
 B = [
+ # (ema_incremental_form, written as property-preserving, is a mutant now - see make_mutants.py:
+ #  val - last overflows for opposite values next to the largest finite float, C04 / C09)
  ("sma_resum_window", SW+"sma.rs", "        self.sum = self.sum + val;", "        self.sum = self.q_vals.iter().fold(T::zero(), |a, b| a + *b);"),
  ("alma_weights_by_window_position", SW+"alma.rs", "        let ala = self.wtd_sum / self.cum_wt;",
   "        // proper ALMA: the kernel weight belongs to the position in the window, not to the sample\n        let two = T::from(2.0).expect(\"can convert\");\n        let mut num = T::zero();\n        let mut den = T::zero();\n        for (k, v) in self.q_vals.iter().enumerate() {\n            let kk = T::from(k).expect(\"can convert\");\n            let w = (-(kk - self.m).powi(2) / (two * self.s * self.s)).exp();\n            num = num + w * *v;\n            den = den + w;\n        }\n        let ala = num / den;"),
  ("welford_two_pass", SW+"welford_online.rs", "        self.update_stats_add(val);\n    }", "        self.update_stats_add(val);\n        // two-pass recomputation over the window\n        let n = T::from(self.q_vals.len()).unwrap();\n        let mean = self.q_vals.iter().fold(T::zero(), |a, b| a + *b) / n;\n        self.m2 = self.q_vals.iter().fold(T::zero(), |a, b| a + (*b - mean) * (*b - mean));\n        self.mean = mean;\n        self.count = self.q_vals.len();\n    }"),
  ("cti_centred_on_window_mean", SW+"correlation_trend_indicator.rs", "let base = self.q_vals.front().copied().unwrap_or_else(T::zero);", "let base = if self.q_vals.is_empty() { T::zero() } else { self.q_vals.iter().fold(T::zero(), |a, b| a + *b) / T::from(self.q_vals.len()).unwrap() };"),
- ("ema_incremental_form", SW+"ema.rs", "self.out = val * weight + self.last_ema * (T::one() - weight);", "self.out = self.last_ema + weight * (val - self.last_ema);"),
  ("min_rescans_every_update", SW+"min.rs", "        self.q_vals.push_back(val);\n        if let Some(min) = self.opt_min.as_mut() {", "        self.q_vals.push_back(val);\n        self.opt_min = self.q_vals.iter().copied().min_by(|a, b| a.partial_cmp(b).expect(\"Can compare elements\"));\n        if let Some(min) = self.opt_min.as_mut() {"),
  ("cumulative_resums_window", SW+"cumulative.rs", "        *out = *out + val;", "        *out = self.q_vals.iter().fold(T::zero(), |a, b| a + *b);"),
  ("rsi_direct_ratio", SW+"rsi.rs", "            let rs = self.avg_gain / self.avg_loss;\n            let rsi = hundred - hundred / (T::one() + rs);", "            let rsi = hundred * self.avg_gain / (self.avg_gain + self.avg_loss);"),
